@@ -49,7 +49,10 @@ _one_layout = {
     "extra_dirs": st.lists(st.sampled_from(["logs", "work", "compose.old", "metadata.bak"]), max_size=2, unique=True),
     "access_order": st.permutations(["info", "images", "rpms", "modules"]),
 }
-layout_strategy = st.fixed_dictionaries(dict(_one_layout, then=st.one_of(st.none(), st.fixed_dictionaries(_one_layout))))
+# the caller's path is a path, whatever characters its components carry
+DIR_NAMES = ["Foo-1.0-20160622.n.0", "Foo-1.0-20160622.n.0", "nightly[x86_64]", "latest-Fedora-*", "what?", "sp ace", "\u00fc\u00f1\u00ed", "a]b[c", "{x,y}", "~tilde", "100%", "dot.", "#hash"]
+layout_strategy = st.fixed_dictionaries(dict(_one_layout, then=st.one_of(st.none(), st.fixed_dictionaries(_one_layout)),
+                                             dirs=st.tuples(st.sampled_from(["", "", ""] + DIR_NAMES), st.sampled_from(DIR_NAMES))))
 
 
 def make_text(kind, content, serial):
@@ -206,7 +209,10 @@ def probe(tmp, root, locations, layout):
 def layout_case(case):
     tmp = tempfile.mkdtemp(prefix="c20-")
     try:
-        root = os.path.join(tmp, "Foo-1.0-20160622.n.0")
+        parent, name = case.get("dirs") or ("", "Foo-1.0-20160622.n.0")
+        if parent:
+            os.mkdir(os.path.join(tmp, parent))
+        root = os.path.join(tmp, parent, name)
         locations, placed, serial = populate(root, case, 0)
         resolved = probe(tmp, root, locations, case)
         labels = []
@@ -226,6 +232,8 @@ def layout_case(case):
         labels += [">=2-locations"] if nlocs >= 2 else []
         labels += (["legacy-name"] if legacy_name else []) + (["invalid-content"] if invalid else []) + (["trailing-slash"] if case["trailing_slash"] else [])
         labels += ["resolved:" + ("direct" if resolved == "" else "compose" if resolved == "compose" else "legacy")]
+        if any(ch in parent + name for ch in "[]*?{}"):
+            labels.append("pattern-characters-in-path")
         if "compose" in locations and "info" not in locations["compose"]:
             labels.append("compose-subdir-without-composeinfo")
         return {"nontrivial": nlocs >= 2 or legacy_name or invalid, "labels": labels}
